@@ -104,8 +104,50 @@ def make_data(size, seed):
 
 
 # ------------------------------------------------------------------ driving the real code
+_GRID = {}
+
+
+def grid_request(data, method, header, via):
+    """the same request against a REAL node (literal / CHK / SDMF / MDMF) on a virtual grid, through the
+    real HTTP parser and Root resource (vt.lib_web)"""
+    from .. import grid as _grid, lib_web, lib_mut
+    from allmydata.immutable.upload import Data
+    from allmydata.mutable.publish import MutableData
+    if "g" not in _GRID:
+        _GRID["g"] = _grid.Grid(3, client_kw=dict(k=2, n=3, happy=2, max_segment_size=32))
+        _GRID["w"] = lib_web.Web(_GRID["g"])
+        _GRID["caps"] = {}
+    g, w = _GRID["g"], _GRID["w"]
+    kind = via.split(":")[1]
+    key = (kind, bytes(data))
+    if key not in _GRID["caps"]:
+        c = g.clients[0]
+        if kind in ("lit", "chk"):
+            b = g.wait(c.upload(Data(data, convergence=b"c40")))
+            cap = b[0][1].get_uri()
+        else:
+            b = lib_mut.create(g, kind.upper(), data)
+            cap = b[0][1].get_uri()
+        g.quiesce()
+        _GRID["caps"][key] = cap.decode()
+    cap = _GRID["caps"][key]
+    from urllib.parse import quote
+    hs = {} if header is None else {"Range": header}
+    r = w.request(method.decode(), "/uri/" + quote(cap, safe=""), b"", hs)
+    g.quiesce()
+    boot.R.take_errors()
+    boot.take_logged()
+    if r is None:
+        return {"exception": "hang: no response"}
+    if r[0] == 0:
+        return {"exception": "malformed response %r" % (r[2][:60],)}
+    return {"status": r[0], "headers": r[1], "body": r[2], "reads": None}
+
+
 def request(data, method, header, via):
     """-> dict(status, headers{lower-name: [values]}, body, finished, reads) or {'exception': repr}"""
+    if via.startswith("grid:"):
+        return grid_request(data, method, header, via)
     ch = DummyChannel()
     req = TahoeLAFSRequest(ch)
     req.method = method
@@ -508,9 +550,39 @@ def _chunk(chunk, seed, square_upto):
     return res
 
 
+def _grid_chunk(chunk, seed):
+    """real nodes: (kind, size) x reduced header catalogue"""
+    res = common.Result()
+    for (kind, size) in chunk:
+        cat = catalogue(size, size <= 4)
+        for header in cat:
+            if header is not None and (b"\n" in header or b"\r" in header):
+                continue            # cannot be sent as one header line through a real HTTP parser
+            case = {"size": size, "header": header, "seed": seed, "via": "grid:" + kind}
+            bad, info = check_case(case)
+            res.count("evaluations", 2)
+            res.count("grid_requests", 2)
+            res.count("outcome:" + str(info.get("status", "exception")))
+            if info.get("single"):
+                res.count("grid_nontrivial")
+            for sig, msg in bad:
+                res.violation(sig + "@real-node", case, msg)
+    g = _GRID.pop("g", None)
+    if g is not None:
+        g.close()
+        _GRID.clear()
+    return res
+
+
 def replay(case):
     case = dict(case)
-    return check_case(case)[0]
+    try:
+        return check_case(case)[0]
+    finally:
+        g = _GRID.pop("g", None)
+        if g is not None:
+            g.close()
+            _GRID.clear()
 
 
 def run(tier, seed):
@@ -519,6 +591,10 @@ def run(tier, seed):
     # interleave small and large sizes so that chunks are balanced
     sizes = list(range(top + 1))
     res = common.pmap(_chunk, sizes, (seed, square), chunks=min(len(sizes), common.NWORKERS * 4))
+    kinds = [("lit", 0), ("lit", 1), ("lit", 55), ("chk", 56), ("chk", 100), ("sdmf", 1), ("sdmf", 56), ("mdmf", 1), ("mdmf", 56), ("mdmf", 100)]
+    if tier != "quick":
+        kinds += [("chk", 57), ("chk", 300), ("sdmf", 0), ("sdmf", 100), ("mdmf", 0), ("mdmf", 300)]
+    res.merge(common.pmap(_grid_chunk, kinds, (seed,), chunks=len(kinds)))
     statuses = sorted(k.split(":", 1)[1] for k in res.counts if k.startswith("outcome:"))
     cov = {
         "evaluations": res.counts.get("evaluations", 0),
@@ -526,10 +602,12 @@ def run(tier, seed):
         "distinct_cases": res.counts.get("cases", 0),
         "exhaustive": True,
         "distinct_statuses": len(statuses),
+        "requests_against_real_nodes_on_a_grid": res.counts.get("grid_requests", 0),
         "statuses": ",".join(statuses),
         "rule": ("every file size 0..%d x every header of the boundary catalogue (all a-b / a- / -n over V(size), complete square 0..size+2 for size <= %d, "
                  "all ordered pairs of 11 boundary specs as two-range lists, ~75 non-grammar / lenient templates at 3 positions, undecodable bytes, no header) "
-                 "x {GET, HEAD} x {FileDownloader.render, FileNodeHandler.render}; evaluations = requests rendered by the real code; "
+                 "x {GET, HEAD} x {FileDownloader.render, FileNodeHandler.render}; plus the catalogue against real literal / CHK / SDMF / MDMF nodes "
+                 "on a virtual grid through the real HTTP parser and Root resource; evaluations = requests rendered by the real code; "
                  "non-trivial = (size, header) with exactly one grammatical byte-range in canonical form, where the statement fixes 206/416/200 uniquely") % (top, square),
     }
     return res, cov
